@@ -97,5 +97,5 @@ def _fp(case):
 SUBS = [
     Sub('roundtrip', oracle, _classify, strategy=lambda tier: _cases(),
         budget={'quick': 60, 'thorough': 2000}, fingerprint=_fp,
-        require_tags=('extension', 'cross-version', 'meta:example')),
+        require_tags=('extension', 'cross-version', 'meta:example', 'text-over-8k')),
 ]
